@@ -49,6 +49,7 @@ structure Conv (lk : Node → Node → Bool) (n o sq : Nat) (L : List RAd) (t : 
   mh : t.maxHops = 0
   links : ∀ a b, linked t a b = lk a b
   ctr : sq ≤ (t.nodes o).seq
+  nowd : ∀ f, f ∈ t.flight → f.adv.wd = false
   frames : ∀ f, f ∈ t.flight → keyOf f = (o, sq) → FrameInv t o sq L f
   closed : ∀ x, Marked t o (o, sq) x → ∀ p, lk x p = true →
     Marked t o (o, sq) p ∨ ∃ f, f ∈ t.flight ∧ keyOf f = (o, sq) ∧ f.src = x ∧ f.dst = p
@@ -105,7 +106,7 @@ theorem foldl_storeRoute_keeps_copy {self frm clock : Nat} {a : Adv} (rs : List 
 
 /-- Whatever `handle` does, an existing copy stays or is replaced by a more recent one. -/
 theorem handle_keeps_copy {mh : Nat} {peers : List Node} {self frm clock : Nat} {a : Adv} {st : NodeSt}
-    {o sq : Nat} {r : RAd} (h : ∃ e, e ∈ st.tab ∧ CopyOf o sq r e) :
+    {o sq : Nat} {r : RAd} (hwd : a.wd = false) (h : ∃ e, e ∈ st.tab ∧ CopyOf o sq r e) :
     ∃ e, e ∈ (handle mh peers self frm clock a st).1.tab ∧ CopyOf o sq r e := by
   unfold handle
   split
@@ -113,7 +114,8 @@ theorem handle_keeps_copy {mh : Nat} {peers : List Node} {self frm clock : Nat} 
   · dsimp only
     split
     · exact h
-    · split
+    · rw [if_neg (by simp [hwd])]
+      split
       · exact h
       · have := foldl_storeRoute_keeps_copy (self := self) (frm := frm) (clock := clock) (a := a) a.routes
           { st with seen := (a.origin, a.seq) :: st.seen } h
@@ -147,14 +149,14 @@ theorem foldl_storeRoute_stores {self frm clock : Nat} {a : Adv} (hp : self ∉ 
 
 /-- `handle` when the advertisement is accepted and there is no hop limit. -/
 theorem handle_new_eq {peers : List Node} {self frm clock : Nat} {a : Adv} {st : NodeSt}
-    (hseen : (a.origin, a.seq) ∉ st.seen) (hsb : self ∉ a.seenBy) :
+    (hwd : a.wd = false) (hseen : (a.origin, a.seq) ∉ st.seen) (hsb : self ∉ a.seenBy) :
     handle 0 peers self frm clock a st =
       (a.routes.foldl (storeRoute self frm a clock) { st with seen := (a.origin, a.seq) :: st.seen },
        (fwdTargets peers frm (fwdAdv self a).seenBy).map (fun p => (p, fwdAdv self a)), .new) := by
   unfold handle
   rw [if_neg hseen]
   dsimp only
-  rw [if_neg hsb, if_neg (by omega), if_neg (by omega)]
+  rw [if_neg hsb, if_neg (by simp [hwd]), if_neg (by omega), if_neg (by omega)]
 
 theorem mem_eraseIdx_of_ne {α : Type} {l : List α} {pos : Nat} {g f : α} (hg : g ∈ l)
     (hf : l[pos]? = some f) (hne : g ≠ f) : g ∈ l.eraseIdx pos := by
@@ -203,13 +205,23 @@ theorem conv_process {lk : Node → Node → Bool} {n o sq : Nat} {L : List RAd}
     split
     · rename_i hx; rw [(handle_seq _ _ _ _ _ _ _).1, hnodes, ← hx]; exact hC.ctr
     · exact hC.ctr
+  have hfwd : f.adv.wd = false := hC.nowd f hf
+  have hnowd' : ∀ g, g ∈ (process { t with flight := fl } a b f.adv).1.flight → g.adv.wd = false := by
+    intro g hg
+    rw [process_flight] at hg
+    rcases List.mem_append.1 hg with hg | hg
+    · exact hC.nowd g (hsub g hg)
+    · rcases List.mem_map.1 hg with ⟨⟨p, m⟩, hpm, rfl⟩
+      have := (handle_out hpm).1
+      simp only at this ⊢
+      rw [this, fwdAdv_wd]; exact hfwd
   have hstored_old : ∀ x, (o, sq) ∈ (t.nodes x).seen → ∀ r, r ∈ L → r.kind ≠ 3 →
       ∃ e, e ∈ ((process { t with flight := fl } a b f.adv).1.nodes x).tab ∧ CopyOf o sq r e := by
     intro x hx r hr hk
     have h0 := hC.stored x hx r hr hk
     rw [process_nodes]
     split
-    · rename_i hxb; subst hxb; exact handle_keeps_copy h0
+    · rename_i hxb; subst hxb; exact handle_keeps_copy hfwd h0
     · exact h0
   by_cases hkey : keyOf f = (o, sq)
   · -- a frame of our announcement
@@ -228,7 +240,7 @@ theorem conv_process {lk : Node → Node → Bool} {n o sq : Nat} {L : List RAd}
         rw [process_flight, hh]; simp
       have hmk : ∀ x, Marked (process { t with flight := fl } a b f.adv).1 o (o, sq) x ↔ Marked t o (o, sq) x := by
         intro x; unfold Marked; rw [hnodes']
-      refine ⟨hC.n_eq, hC.mh, hC.links, by rw [hnodes']; exact hC.ctr, ?_, ?_, ?_⟩
+      refine ⟨hC.n_eq, hC.mh, hC.links, by rw [hnodes']; exact hC.ctr, hnowd', ?_, ?_, ?_⟩
       · intro g hg hgk
         rw [hflight'] at hg
         have := hC.frames g (hsub g hg) hgk
@@ -247,7 +259,7 @@ theorem conv_process {lk : Node → Node → Bool} {n o sq : Nat} {L : List RAd}
       have hsb : b ∉ f.adv.seenBy := hdst ▸ hFI.dst
       have hseen0 : (f.adv.origin, f.adv.seq) ∉ (t.nodes b).seen := by rw [hk']; exact hcached
       have hh := handle_new_eq (peers := peersOf t b) (self := b) (frm := a) (clock := t.clock)
-        (a := f.adv) (st := t.nodes b) hseen0 hsb
+        (a := f.adv) (st := t.nodes b) hfwd hseen0 hsb
       have hproc_flight : (process { t with flight := fl } a b f.adv).1.flight = fl ++
           ((fwdTargets (peersOf t b) a (fwdAdv b f.adv).seenBy).map (fun p => (p, fwdAdv b f.adv))).map
             (fun (pf : Node × Adv) => ({ src := b, dst := pf.1, adv := pf.2 } : Flight)) := by
@@ -269,12 +281,9 @@ theorem conv_process {lk : Node → Node → Bool} {n o sq : Nat} {L : List RAd}
         intro g hg
         simp only [List.map_map, List.mem_map, Function.comp] at hg
         obtain ⟨p, hp, rfl⟩ := hg
-        unfold fwdTargets at hp
-        rcases List.mem_filter.1 hp with ⟨hp1, hp2⟩
-        simp only [fwdAdv, Bool.and_eq_true, bne_iff_ne, ne_eq, Bool.not_eq_true', List.contains_eq_mem,
-          List.mem_append, List.mem_singleton, decide_eq_false_iff_not, not_or] at hp2
-        exact ⟨rfl, rfl, hp1, hp2.1, hp2.2.1, hp2.2.2⟩
-      refine ⟨hC.n_eq, hC.mh, hC.links, hctr, ?_, ?_, ?_⟩
+        obtain ⟨hp1, hp2, hp3, hp4⟩ := mem_fwdTargets hp
+        exact ⟨rfl, rfl, hp1, hp2, hp3, hp4⟩
+      refine ⟨hC.n_eq, hC.mh, hC.links, hctr, hnowd', ?_, ?_, ?_⟩
       · intro g hg hgk
         rw [hproc_flight] at hg
         rcases List.mem_append.1 hg with hg | hg
@@ -284,23 +293,23 @@ theorem conv_process {lk : Node → Node → Bool} {n o sq : Nat} {L : List RAd}
         · obtain ⟨h1, h2, h3, h4, h5, h6⟩ := hnew_frame g hg
           refine ⟨h1 ▸ hb_marked, ?_, ?_, ?_, ?_⟩
           · intro y hy
-            rw [h2] at hy
-            simp only [fwdAdv, List.mem_append, List.mem_singleton] at hy
+            rw [h2, fwdAdv_seenBy] at hy
+            simp only [List.mem_append, List.mem_singleton] at hy
             rcases hy with hy | hy
             · exact marked_mono_process (hFI.seenBy y hy)
             · exact hy ▸ hb_marked
-          · rw [h2]; simp only [fwdAdv, List.mem_append, List.mem_singleton, not_or]; exact ⟨h5, h6⟩
+          · rw [h2, fwdAdv_seenBy]; simp only [List.mem_append, List.mem_singleton, not_or]; exact ⟨h5, h6⟩
           · intro y hy
-            rw [h2] at hy ⊢
-            simp only [fwdAdv] at hy ⊢
+            rw [h2, fwdAdv_path hfwd] at hy
+            rw [h2, fwdAdv_seenBy]
             rcases List.mem_cons.1 hy with hy | hy
             · exact List.mem_append_right _ (by simp [hy])
             · exact List.mem_append_left _ (hFI.path y hy)
           · intro r hr
             obtain ⟨r', hr', hk1, hk2⟩ := hFI.routes r hr
-            rw [h2]
+            rw [h2, fwdAdv_routes hfwd]
             refine ⟨{ r' with metric := inc16 r'.metric }, ?_, hk1, hk2⟩
-            simp only [fwdAdv, List.mem_map]
+            simp only [List.mem_map]
             exact ⟨r', hr', rfl⟩
       · intro x hx p hp
         -- was x marked before, or is it b (newly marked)?
@@ -329,7 +338,7 @@ theorem conv_process {lk : Node → Node → Bool} {n o sq : Nat} {L : List RAd}
               have hpt : p ∈ fwdTargets (peersOf t x) a (fwdAdv x f.adv).seenBy := by
                 unfold fwdTargets
                 refine List.mem_filter.2 ⟨hpeer, ?_⟩
-                simp only [fwdAdv, Bool.and_eq_true, bne_iff_ne, ne_eq, Bool.not_eq_true', List.contains_eq_mem,
+                simp only [fwdAdv_seenBy, Bool.and_eq_true, bne_iff_ne, ne_eq, Bool.not_eq_true', List.contains_eq_mem,
                   List.mem_append, List.mem_singleton, decide_eq_false_iff_not, not_or]
                 exact ⟨hpa, hps, hpx⟩
               refine Or.inr ⟨⟨x, p, fwdAdv x f.adv⟩, ?_, ?_, rfl, rfl⟩
@@ -337,7 +346,8 @@ theorem conv_process {lk : Node → Node → Bool} {n o sq : Nat} {L : List RAd}
                 apply List.mem_append_right
                 simp only [List.map_map, List.mem_map, Function.comp]
                 exact ⟨p, hpt, rfl⟩
-              · exact hkey
+              · show (( fwdAdv x f.adv).origin, (fwdAdv x f.adv).seq) = (o, sq)
+                rw [fwdAdv_origin, fwdAdv_seq]; exact hkey
       · intro x hx r hr hk
         rcases hseen_inv x _ hx with h | ⟨hxb, _⟩
         · exact hstored_old x h r hr hk
@@ -373,8 +383,8 @@ theorem conv_process {lk : Node → Node → Bool} {n o sq : Nat} {L : List RAd}
         apply hkey
         rw [← hgk]
         subst this
-        rfl
-    refine ⟨hC.n_eq, hC.mh, hC.links, hctr, ?_, ?_, ?_⟩
+        simp only [keyOf, fwdAdv_origin, fwdAdv_seq]
+    refine ⟨hC.n_eq, hC.mh, hC.links, hctr, hnowd', ?_, ?_, ?_⟩
     · intro g hg hgk
       have := hC.frames g (hsub g (hours g hg hgk)) hgk
       exact ⟨(hmk _).2 this.src, fun y hy => (hmk _).2 (this.seenBy y hy), this.dst, this.path, this.routes⟩
@@ -396,12 +406,13 @@ theorem conv_step {lk : Node → Node → Bool} {n o sq : Nat} {L : List RAd} {s
     (hirr : ∀ x, lk x x = false) (hrange : ∀ x p, lk x p = true → p < n)
     (hC : Conv lk n o sq L s) (hst : stable op = true) : Conv lk n o sq L (step s op) := by
   have hT : Conv lk n o sq L (tick s) :=
-    ⟨hC.n_eq, hC.mh, hC.links, hC.ctr,
+    ⟨hC.n_eq, hC.mh, hC.links, hC.ctr, hC.nowd,
       fun f hf hk => let h := hC.frames f hf hk; ⟨h.src, h.seenBy, h.dst, h.path, h.routes⟩,
       hC.closed, hC.stored⟩
   cases op with
   | connect a b => cases hst
   | replay a b ord => cases hst
+  | withdraw a => cases hst
   | drop a b i => cases hst
   | expire a k q => cases hst
   | stale a age => cases hst
@@ -444,11 +455,16 @@ theorem conv_step {lk : Node → Node → Bool} {n o sq : Nat} {L : List RAd} {s
         intro x; simp only [setNode_nodes]; split
         · rename_i hx; subst hx; rfl
         · rfl
-      refine ⟨hC.n_eq, hC.mh, hC.links, ?_, ?_, ?_, ?_⟩
+      refine ⟨hC.n_eq, hC.mh, hC.links, ?_, ?_, ?_, ?_, ?_⟩
       · show sq ≤ ((setNode (tick s) c _).nodes o).seq
         simp only [setNode_nodes]; split
         · rename_i hx; subst hx; exact Nat.le_succ_of_le hC.ctr
         · exact hC.ctr
+      · intro g hg
+        rcases List.mem_append.1 hg with hg | hg
+        · exact hC.nowd g hg
+        · rcases List.mem_map.1 hg with ⟨p, _, rfl⟩
+          rfl
       · intro g hg hgk
         have hg' : g ∈ s.flight := by
           rcases List.mem_append.1 hg with hg | hg
@@ -487,7 +503,8 @@ theorem conv_announce (s0 : Net) (o : Node) (ho : o < s0.n) (hmh : s0.maxHops = 
     (hirr : ∀ x, linked s0 x x = false)
     (hrange : ∀ x p, linked s0 x p = true → p < s0.n)
     (hfresh : ∀ x, (o, (s0.nodes o).seq + 1) ∉ (s0.nodes x).seen)
-    (hnoold : ∀ f, f ∈ s0.flight → keyOf f ≠ (o, (s0.nodes o).seq + 1)) :
+    (hnoold : ∀ f, f ∈ s0.flight → keyOf f ≠ (o, (s0.nodes o).seq + 1))
+    (hnowd : ∀ f, f ∈ s0.flight → f.adv.wd = false) :
     Conv (linked s0) s0.n o ((s0.nodes o).seq + 1) (s0.nodes o).locals (step s0 (.announce o)) := by
   have ho' : o < (tick s0).n := ho
   have hseen : ∀ x, ((step s0 (.announce o)).nodes x).seen = (s0.nodes x).seen := by
@@ -504,10 +521,16 @@ theorem conv_announce (s0 : Net) (o : Node) (ho : o < s0.n) (hmh : s0.maxHops = 
     rcases hx with hx | hx
     · exact hx
     · rw [hseen] at hx; exact absurd hx (hfresh x)
-  refine ⟨step_n _ _, (step_maxHops _ _).trans hmh, ?_, ?_, ?_, ?_, ?_⟩
+  refine ⟨step_n _ _, (step_maxHops _ _).trans hmh, ?_, ?_, ?_, ?_, ?_, ?_⟩
   · intro a b
     simp only [linked, step, stepCore]; rw [if_pos ho']; rfl
   · rw [MM.C14.announce_seq s0 o ho]; exact Nat.le_refl _
+  · intro g hg
+    rw [hflight] at hg
+    rcases List.mem_append.1 hg with hg | hg
+    · exact hnowd g hg
+    · rcases List.mem_map.1 hg with ⟨p, _, rfl⟩
+      rfl
   · intro f hf hfk
     rw [hflight] at hf
     rcases List.mem_append.1 hf with hf | hf
@@ -564,6 +587,7 @@ theorem C12_converges (s0 : Net) (o : Node) (ops : List Op)
     (hirr : ∀ x, linked s0 x x = false) (hrange : ∀ x p, linked s0 x p = true → p < s0.n)
     (hfresh : ∀ x, (o, (s0.nodes o).seq + 1) ∉ (s0.nodes x).seen)
     (hnoold : ∀ f, f ∈ s0.flight → keyOf f ≠ (o, (s0.nodes o).seq + 1))
+    (hnowd : ∀ f, f ∈ s0.flight → f.adv.wd = false)
     (hst : ∀ op, op ∈ ops → stable op = true)
     (hquiet : ∀ f, f ∈ (run (step s0 (.announce o)) ops).flight → keyOf f ≠ (o, (s0.nodes o).seq + 1)) :
     ∀ x, Reach (linked s0) o x → x ≠ o →
@@ -571,7 +595,7 @@ theorem C12_converges (s0 : Net) (o : Node) (ops : List Op)
       ∀ r, r ∈ (s0.nodes o).locals → r.kind ≠ 3 →
         ∃ e, e ∈ ((run (step s0 (.announce o)) ops).nodes x).tab ∧ CopyOf o ((s0.nodes o).seq + 1) r e := by
   intro x hx hxo
-  have hC := conv_run hirr hrange _ ops (conv_announce s0 o ho hmh hirr hrange hfresh hnoold) hst
+  have hC := conv_run hirr hrange _ ops (conv_announce s0 o ho hmh hirr hrange hfresh hnoold hnowd) hst
   have hm := conv_quiescent hC hquiet x hx
   rcases hm with hm | hm
   · exact absurd hm hxo
@@ -617,10 +641,31 @@ theorem linkWF_run (n mh : Nat) (L : Node → List RAd) (ops : List Op) :
   (run_induction (P := LinkWF n) _ ops
     ⟨rfl, by intro a b h; simp [linked, init] at h⟩ (fun _ _ h => linkWF_step h)).2
 
+/-- Without `withdraw` ops no ROUTE_WITHDRAW frame is ever in flight. -/
+theorem nowd_run (s : Net) (ops : List Op) (h0 : ∀ f, f ∈ s.flight → f.adv.wd = false)
+    (hnw : ∀ op, op ∈ ops → ∀ a, op ≠ .withdraw a) :
+    ∀ f, f ∈ (run s ops).flight → f.adv.wd = false := by
+  induction ops generalizing s with
+  | nil => exact h0
+  | cons op t ih =>
+    apply ih (step s op)
+    · intro f hf
+      cases flight_step hf with
+      | old h => exact h0 f h
+      | ann hop ha hd hadv => rw [hadv]; rfl
+      | wdr hop ha hcidr hd hadv => exact absurd hop (hnw op List.mem_cons_self _)
+      | fwd a m hm hl ha hb hd hne hns hself hseen hsb hlim hadv =>
+        rw [hadv, fwdAdv_wd]; exact h0 _ hm
+      | rep ord hop ha hb hl hadv =>
+        obtain ⟨o, sq, _, _, hm⟩ := mem_replayAdvs hadv
+        rw [hm]; rfl
+    · intro o ho; exact hnw o (List.mem_cons_of_mem _ ho)
+
 /-- `C12_converges` for an announcement made after any history without third-party replays and
     without hop limit: freshness of the sequence number is then a theorem (C14), not a hypothesis. -/
 theorem C12_converges_run (n : Nat) (L : Node → List RAd) (pre ops : List Op) (o : Node)
     (ho : o < n) (hb : benignRun (init n 0 L) pre = true)
+    (hnw : ∀ op, op ∈ pre → ∀ a, op ≠ .withdraw a)
     (hst : ∀ op, op ∈ ops → stable op = true)
     (hquiet : ∀ f, f ∈ (run (step (run (init n 0 L) pre) (.announce o)) ops).flight →
       keyOf f ≠ (o, ((run (init n 0 L) pre).nodes o).seq + 1)) :
@@ -650,6 +695,7 @@ theorem C12_converges_run (n : Nat) (L : Node → List RAd) (pre ops : List Op) 
       simp only [keyOf, Prod.mk.injEq] at hk
       rw [hk.1, hk.2] at this
       omega)
+    (nowd_run _ pre (by intro f hf; simp [init] at hf) hnw)
     hst hquiet
   intro x hx hxo
   obtain ⟨h1, h2⟩ := this x hx hxo
@@ -669,6 +715,8 @@ def ringSched : List Op := [
   .deliver 2 3 0, .deliver 1 2 0, .deliver 3 2 0, .deliver 2 1 0, .deliver 2 3 0]
 
 example : benignRun (init 4 0 ringLocals) ringPre = true := by decide
+example : ∀ op, op ∈ ringPre → ∀ a, op ≠ .withdraw a := by
+  intro op hop a h; subst h; simp [ringPre] at hop
 example : ∀ op, op ∈ ringSched → stable op = true := by decide
 example : (run (step (run (init 4 0 ringLocals) ringPre) (.announce 0)) ringSched).flight.all
     (fun f => keyOf f != (0, ((run (init 4 0 ringLocals) ringPre).nodes 0).seq + 1)) = true := by decide
